@@ -297,6 +297,9 @@ func (run *propRun) report(id, tier string, seed int, start time.Time, update bo
 	var viols []violation
 	known := map[string]bool{}
 	replayDir := filepath.Join(verifDir, "replays")
+	if repoDir != "/repo" {
+		replayDir = filepath.Join(verifDir, "work", "replays-scratch")
+	}
 	os.MkdirAll(replayDir, 0o755)
 	isKnown := func(key string) *Finding {
 		for i := range findings {
@@ -557,8 +560,13 @@ func (run *propRun) writeEvidence(id, tier string, seed int, start time.Time, to
 	ev := map[string]any{"property_id": id, "tier": tier, "seed": seed, "level": level, "coverage": cov,
 		"assumptions": assumptions, "wall_s": float64(int(time.Since(start).Seconds()*10)) / 10, "violations": nviol}
 	b, _ := json.MarshalIndent(ev, "", " ")
-	os.MkdirAll(filepath.Join(verifDir, "evidence"), 0o755)
-	os.WriteFile(filepath.Join(verifDir, "evidence", id+".json"), append(b, '\n'), 0o644)
+	evDir := filepath.Join(verifDir, "evidence")
+	if repoDir != "/repo" {
+		// runs against a scratch copy (self-test, seeded changes) must not overwrite the evidence of the real tree
+		evDir = filepath.Join(verifDir, "work", "evidence-scratch")
+	}
+	os.MkdirAll(evDir, 0o755)
+	os.WriteFile(filepath.Join(evDir, id+".json"), append(b, '\n'), 0o644)
 }
 
 func keysOf(m map[string]bool) []string {
